@@ -179,6 +179,7 @@ func c02Run(run *ev.Run) {
 		depth = 7
 	}
 	var total seqx.Stats
+	defer debugLogTail(run, 5, func(s world.Spec) seqx.Model { return c02Opts("quick", s).model(c02Monitor(run, s)) }, c02Specs("quick")[0])
 	for i, spec := range c02Specs(run.Tier) {
 		m := c02Opts(run.Tier, spec).model(c02Monitor(run, spec))
 		m.MaxDepth = depth
